@@ -2,48 +2,55 @@
 fragment are exercised), keeping its component / slot / fill structure."""
 
 
+def _flat(ts):
+    import genprog
+    return genprog.flatten(ts)
+
+
 def fragmentize(prog, mode="isolated", keep=()):
     """isolated mode; for -> with (first element bound), provide -> its body, default= aliases dropped, slot tags and
     is_filled tests inside component-tag bodies replaced by text, inject data -> constant."""
-    def ex(e, inbody):
-        if e[0] == "counter":
+    def ex(e, inbody, inloop=False):
+        if e[0] == "counter" and not (inloop and "for" in keep):
             return ("str", "1")
         if e[0] == "filled" and inbody and "passthrough" not in keep:
             return ("str", "F")
         return e
 
-    def kw(l, inbody):
-        return [(k, ex(e, inbody)) for k, e in l]
+    def kw(l, inbody, inloop=False):
+        return [(k, ex(e, inbody, inloop)) for k, e in l]
 
-    def ts(l, inbody, drop):
+    def ts(l, inbody, drop, inloop=False):
         out = []
         for t in l:
-            out.extend(t1(t, inbody, drop))
+            out.extend(t1(t, inbody, drop, inloop))
         return out
 
-    def t1(t, inbody, drop):
+    def t1(t, inbody, drop, inloop=False):
         k = t[0]
         if k == "text":
             return [t]
         if k == "out":
             if t[1][0] == "var" and t[1][1] in drop:
                 return []
-            return [("out", ex(t[1], inbody))]
+            return [("out", ex(t[1], inbody, inloop))]
         if k == "if":
-            return [("if", ex(t[1], inbody), ts(t[2], inbody, drop), ts(t[3], inbody, drop))]
+            return [("if", ex(t[1], inbody, inloop), ts(t[2], inbody, drop, inloop), ts(t[3], inbody, drop, inloop))]
         if k == "for":
-            return [("with", t[1], ("str", "I1"), ts(t[3], inbody, drop))]
+            if "for" in keep and not inbody and not any(x[0] in ("comp", "fill") for x in _flat(t[3])):
+                return [("for", t[1], t[2], ts(t[3], inbody, drop, True))]
+            return [("with", t[1], ("str", "I1"), ts(t[3], inbody, drop, inloop))]
         if k == "with":
             e = ex(t[2], inbody)
             if e[0] == "filled":
                 e = ("str", "F")
-            return [("with", t[1], e, ts(t[3], inbody, drop))]
+            return [("with", t[1], e, ts(t[3], inbody, drop, inloop))]
         if k == "slot":
             if inbody and "passthrough" not in keep:
                 return [("text", "(slot %s)" % t[1])]
             if inbody:
                 return [("slot", t[1], t[2], t[3], kw(t[4], True), ts(t[5], True, drop))]
-            return [("slot", t[1], t[2], t[3], kw(t[4], False), ts(t[5], False, drop))]
+            return [("slot", t[1], t[2], t[3], kw(t[4], False, inloop), ts(t[5], False, drop, inloop))]
         if k == "fill":
             d2 = drop | ({t[3]} if t[3] else set())
             return [("fill", ex(t[1], True), t[2], None, ts(t[4], True, d2))]
